@@ -10,6 +10,7 @@ CONSTANTS
   ImplCCs = {"", "C", "cdecl", "stdcall", "fastcall", "thiscall", "vectorcall", "system", "Cdecl"}
   Ptrs = {4, 8}
   NoRecv = {FALSE, TRUE}
+  SweepCCs = {"C", "cdecl", "stdcall", "fastcall", "thiscall", "vectorcall", "system"}
 INVARIANTS Replay
 CHECK_DEADLOCK FALSE
 VIEW View
